@@ -1,0 +1,207 @@
+//go:build verif
+
+package main
+
+import (
+	"bufio"
+	"encoding/hex"
+	"encoding/json"
+	"io"
+	"log"
+	"net"
+	"net/http"
+	"os"
+	"time"
+
+	"github.com/fabiolb/fabio/config"
+	"github.com/fabiolb/fabio/metrics"
+	"github.com/fabiolb/fabio/registry"
+	"github.com/fabiolb/fabio/registry/custom"
+	"github.com/fabiolb/fabio/route"
+)
+
+// Verification driver (build tag verif) for property C02. Only when FABIO_VERIF_DRIVER is "watchbackend" or
+// "custombackend" the process runs the REAL watchBackend loop against a scripted registry backend (or the real
+// custom backend against a scripted HTTP endpoint served by this process) and executes commands read from
+// stdin, one JSON object per line, answering each with one JSON line that carries the canonical dump of
+// route.GetTable(). A panic in the update goroutine ends the process, exactly as in production (nothing here
+// recovers). Nothing changes the behaviour of a normal fabio process.
+//
+//	{"op":"reset"}                          fresh loop (fresh local state), empty table
+//	{"op":"svc"|"man","text":T|"hex":H,"n":k}  deliver the update k times (default 2: the second send returns
+//	                                        only when the loop has finished processing the first)
+//	{"op":"poll","status":200,"body":B|"hex":H,"drop":false}   answer the custom backend's next poll
+//	{"op":"dump"}
+
+type verifC02Cmd struct {
+	Op     string `json:"op"`
+	Text   string `json:"text"`
+	Body   string `json:"body"`
+	Hex    string `json:"hex"`
+	N      int    `json:"n"`
+	Status int    `json:"status"`
+	Drop   bool   `json:"drop"`
+}
+
+func (c *verifC02Cmd) payload() string {
+	if c.Hex != "" {
+		b, _ := hex.DecodeString(c.Hex)
+		return string(b)
+	}
+	if c.Op == "poll" {
+		return c.Body
+	}
+	return c.Text
+}
+
+// verifC02Backend is the scripted registry backend: two unbuffered channels, everything else a no-op.
+type verifC02Backend struct{ svc, man chan string }
+
+func (b *verifC02Backend) Register([]string) error                   { return nil }
+func (b *verifC02Backend) DeregisterAll() error                      { return nil }
+func (b *verifC02Backend) Deregister(string) error                   { return nil }
+func (b *verifC02Backend) ManualPaths() ([]string, error)            { return nil, nil }
+func (b *verifC02Backend) ReadManual(string) (string, uint64, error) { return "", 0, nil }
+func (b *verifC02Backend) WriteManual(string, string, uint64) (bool, error) {
+	return false, nil
+}
+func (b *verifC02Backend) WatchServices() chan string    { return b.svc }
+func (b *verifC02Backend) WatchManual() chan string      { return b.man }
+func (b *verifC02Backend) WatchNoRouteHTML() chan string { return make(chan string) }
+
+type verifC02Poll struct {
+	status int
+	body   string
+	drop   bool
+}
+
+// verifC02Session is one run of the loop under test.
+type verifC02Session struct {
+	be      *verifC02Backend
+	arrived chan struct{}
+	resp    chan verifC02Poll
+	waiting bool
+}
+
+func verifC02Start(mode string) *verifC02Session {
+	s := &verifC02Session{}
+	route.SetTable(make(route.Table))
+	cfg := &config.Config{}
+	cfg.Log.RoutesFormat = os.Getenv("FABIO_VERIF_ROUTESFORMAT")
+	if cfg.Log.RoutesFormat == "" {
+		cfg.Log.RoutesFormat = "delta"
+	}
+	switch mode {
+	case "watchbackend":
+		cfg.Registry.Backend = "verif"
+		s.be = &verifC02Backend{svc: make(chan string), man: make(chan string)}
+		registry.Default = s.be
+	case "custombackend":
+		s.arrived = make(chan struct{}, 1)
+		s.resp = make(chan verifC02Poll)
+		ln, err := net.Listen("tcp", "127.0.0.1:0")
+		if err != nil {
+			log.SetOutput(os.Stderr)
+			log.Fatal("verif c02: listen: ", err)
+		}
+		go http.Serve(ln, http.HandlerFunc(func(w http.ResponseWriter, r *http.Request) {
+			s.arrived <- struct{}{}
+			p := <-s.resp
+			if p.drop {
+				if hj, ok := w.(http.Hijacker); ok {
+					if c, _, err := hj.Hijack(); err == nil {
+						c.Close()
+						return
+					}
+				}
+			}
+			w.WriteHeader(p.status)
+			io.WriteString(w, p.body)
+		}))
+		cfg.Registry.Backend = "custom"
+		cfg.Registry.Custom = config.Custom{Host: ln.Addr().String(), Scheme: "http", Path: "routes", Timeout: time.Hour}
+		be, _ := custom.NewBackend(&cfg.Registry.Custom)
+		registry.Default = be
+	}
+	go watchBackend(cfg, metrics.DiscardProvider{}, make(chan bool))
+	return s
+}
+
+func init() {
+	mode := os.Getenv("FABIO_VERIF_DRIVER")
+	if mode != "watchbackend" && mode != "custombackend" {
+		return
+	}
+	if os.Getenv("FABIO_VERIF_DEBUG") == "" {
+		log.SetOutput(io.Discard)
+	}
+	s := verifC02Start(mode)
+	out := bufio.NewWriterSize(os.Stdout, 1<<20)
+	reply := func(v interface{}) {
+		b, _ := json.Marshal(v)
+		out.Write(b)
+		out.WriteByte('\n')
+		out.Flush()
+	}
+	dump := func() interface{} {
+		return map[string]interface{}{"table": route.VerifDump(route.GetTable(), false)}
+	}
+	in := bufio.NewReaderSize(os.Stdin, 1<<20)
+	for {
+		line, err := in.ReadBytes('\n')
+		if len(line) > 1 {
+			var c verifC02Cmd
+			if jerr := json.Unmarshal(line, &c); jerr != nil {
+				reply(map[string]interface{}{"error": jerr.Error()})
+			} else {
+				switch c.Op {
+				case "reset":
+					s = verifC02Start(mode)
+					reply(dump())
+				case "svc", "man":
+					if s.be == nil {
+						reply(map[string]interface{}{"error": "not in watchbackend mode"})
+						break
+					}
+					ch := s.be.svc
+					if c.Op == "man" {
+						ch = s.be.man
+					}
+					n := c.N
+					if n <= 0 {
+						n = 2
+					}
+					p := c.payload()
+					for i := 0; i < n; i++ {
+						ch <- p
+					}
+					reply(dump())
+				case "poll":
+					if s.resp == nil {
+						reply(map[string]interface{}{"error": "not in custombackend mode"})
+						break
+					}
+					if !s.waiting {
+						<-s.arrived
+					}
+					st := c.Status
+					if st == 0 {
+						st = 200
+					}
+					s.resp <- verifC02Poll{status: st, body: c.payload(), drop: c.Drop}
+					<-s.arrived // the next poll has arrived: the previous one is fully processed
+					s.waiting = true
+					reply(dump())
+				case "dump":
+					reply(dump())
+				default:
+					reply(map[string]interface{}{"error": "unknown op " + c.Op})
+				}
+			}
+		}
+		if err != nil {
+			break
+		}
+	}
+	os.Exit(0)
+}
